@@ -109,7 +109,7 @@ func (s *segImpl) exec(op string) (out string) {
 		if s.sr == nil {
 			return "err noreader"
 		}
-	case "file", "filehex", "hdrat", "mut", "trunc", "recover", "opensealed", "dump":
+	case "file", "filehex", "hdrat", "crcwalk", "mut", "trunc", "recover", "opensealed", "dump":
 		if s.name == "" {
 			return "err nofile"
 		}
@@ -198,6 +198,10 @@ func (s *segImpl) exec(op string) (out string) {
 	case "filehex":
 		data, _ := s.disk.FileData(s.name)
 		return hx(data)
+	case "crcwalk": // README walk of the file with CRC validation of every commit frame
+		data, _ := s.disk.FileData(s.name)
+		c, e, bad := readmeWalk(data)
+		return fmt.Sprintf("commits=%d entries=%d bad=%d", c, e, bad)
 	case "hdrat": // the 8 bytes at an offset read as a frame header: "<type> <length>"
 		data, _ := s.disk.FileData(s.name)
 		off := int(atoiU(ws[1]))
@@ -365,6 +369,10 @@ func segMonitor(ops, impl []string) []Violation {
 					inflightN++
 				}
 			}
+		case "seal":
+			if len(ws) > 1 && ws[1] != "n" && strings.HasPrefix(out, "err") {
+				faulted = true // ForceSeal failed on an injected fault and rolled back: nothing acknowledged may be lost
+			}
 		case "tear":
 			inflight = map[uint64]string{}
 			inflightN = 0
@@ -417,6 +425,17 @@ func segMonitor(ops, impl []string) []Violation {
 			inflight = map[uint64]string{}
 			inflightN = 0
 			recovered = false
+		case "crcwalk":
+			// README: a commit frame carries the CRC of the bytes since the previous commit. Everything acknowledged
+			// must lie under commit frames that check (a frame that does not is what recovery will cut the log at).
+			if malformed {
+				continue
+			}
+			var c, e, bad int
+			fmt.Sscanf(out, "commits=%d entries=%d bad=%d", &c, &e, &bad)
+			if ackedLast != 0 && uint64(e) < ackedLast-base+1 {
+				add("C09", "a commit frame of an acknowledged batch does not carry the CRC-32C of the bytes since the previous commit", fmt.Sprintf("%s (acknowledged up to index %d, base %d)", out, ackedLast, base), i)
+			}
 		case "hdrat":
 			// issued by the generator right after the writer reported (sealed, IndexStart): README — IndexStart is the
 			// offset of the index array, directly preceded by an index frame header (type 2) whose length is 4 bytes
@@ -651,6 +670,9 @@ func genSegCase(r *Rng, id string, tier string) *Case {
 	}
 	g.do("last")
 	g.do("file")
+	if kind < 8 {
+		g.do("crcwalk")
+	}
 	if kind == 7 && r.Chance(2, 3) {
 		// clean reopen after the faults: everything acknowledged must come back
 		if g.do("recover "+g.infoArgs()) == "ok" {
@@ -664,8 +686,8 @@ func genSegCase(r *Rng, id string, tier string) *Case {
 	}
 	if sealedIS == 0 && r.Chance(1, 3) {
 		f := "n"
-		if r.Chance(1, 4) {
-			f = pick(r, []string{"s", "w3", "w16"})
+		if r.Chance(1, 3) {
+			f = pick(r, []string{"s", "w3", "w16", "w0"})
 		}
 		o := g.do("seal " + f)
 		g.tags["forceseal"] = true
@@ -676,7 +698,23 @@ func genSegCase(r *Rng, id string, tier string) *Case {
 			}
 		}
 		g.do("file")
-		g.do("app n" + g.batch(1))
+		if o2 := g.do("app n" + g.batch(1)); o2 == "ok" {
+			g.next++
+		}
+		if f != "n" && !strings.HasPrefix(o, "ok") {
+			// the seal failed on the injected fault and was rolled back: the append that followed was acknowledged;
+			// its commit frame must carry the CRC of its bytes — after a reopen it is still there
+			g.tags["fault:seal-then-append"] = true
+			g.do("file")
+			g.do("crcwalk")
+			if g.do("recover "+g.infoArgs()) == "ok" {
+				g.do("last")
+				for idx := g.base; idx < g.next && idx < g.base+8; idx++ {
+					g.do(fmt.Sprintf("get %d", idx))
+				}
+			}
+			goto done
+		}
 	}
 	if kind >= 8 { // malformed stream
 		data, _ := g.impl.disk.FileData(g.impl.name)
@@ -733,6 +771,43 @@ done:
 	c.NonTrivial = len(g.tags) > 0
 	c.Shape = strings.Join(sortedKeys(g.tags), ",") + fmt.Sprintf("/%d/%d", g.size, len(g.ops)/4)
 	return c
+}
+
+// readmeWalk: README walk with CRC validation — every commit frame must carry the CRC-32C of exactly the bytes since the
+// previous commit frame (since the start of the file for the first). Returns the number of commit frames that check,
+// the entries they cover and the offset of the first commit frame that does not check (0: the walk ended at free
+// space or at something that is not a frame).
+func readmeWalk(b []byte) (commits, covered, bad int) {
+	off, crcStart, pending := 32, 0, 0
+	for off+8 <= len(b) {
+		typ := b[off]
+		v := int(uint32(b[off+4]) | uint32(b[off+5])<<8 | uint32(b[off+6])<<16 | uint32(b[off+7])<<24)
+		if b[off+1] != 0 || b[off+2] != 0 || b[off+3] != 0 {
+			return
+		}
+		switch typ {
+		case 1, 2:
+			if len(b)-off-8 < (v+7)/8*8 || v < 0 {
+				return
+			}
+			if typ == 1 {
+				pending++
+			}
+			off += 8 + (v+7)/8*8
+		case 3:
+			if int(crc32.Checksum(b[crcStart:off], castagnoli)) != v {
+				return commits, covered, off
+			}
+			commits++
+			covered += pending
+			pending = 0
+			off += 8
+			crcStart = off
+		default:
+			return
+		}
+	}
+	return
 }
 
 // entryFrameOffsets walks the frames of a segment file (README layout: 32-byte header, frames of an 8-byte header
@@ -854,6 +929,56 @@ func mutateFile(r *Rng, data []byte) []byte {
 	return b
 }
 
+// genFrameInjectionCase: an adversarial payload. The torn batch's single entry carries, inside its payload, bytes that are
+// themselves a well-formed entry frame followed by a commit frame with the matching CRC. The tear loses only the
+// first chunk (the real frame header), so recovery rejects the batch — and must leave nothing of it behind: the next
+// acknowledged append is sized to end exactly where the embedded frames begin, and after another restart the embedded
+// commit would validate (its CRC range starts right after the real commit) and fabricate an entry.
+func genFrameInjectionCase(r *Rng, id string) *Case {
+	g := &segGen{r: r, impl: newSegImpl(), tags: map[string]bool{"frame-injection": true}}
+	g.base = pick(r, []uint64{1, 7, 100})
+	g.next = g.base
+	g.size = 4096
+	g.codec = 0
+	g.id = uint64(r.Intn(3))
+	g.do("new " + g.infoArgs())
+	n0 := 1 + r.Intn(3)
+	if g.do("app n"+g.batch(n0)) == "ok" {
+		g.next += uint64(n0)
+	}
+	k := 8 * (2 + r.Intn(4)) // filler before the embedded frames
+	inner := r.Bytes(8 * (1 + r.Intn(3)))
+	var e []byte
+	e = append(e, 1, 0, 0, 0, byte(len(inner)), byte(len(inner)>>8), 0, 0)
+	e = append(e, inner...)
+	crc := crc32.Checksum(e, castagnoli)
+	c := []byte{3, 0, 0, 0, byte(crc), byte(crc >> 8), byte(crc >> 16), byte(crc >> 24)}
+	payload := append(append(r.Bytes(k), e...), c...)
+	g.do(fmt.Sprintf("tear 0%s %d:%s", strings.Repeat("1", 63), g.next, hx(payload)))
+	if g.do("recover "+g.infoArgs()) != "ok" {
+		goto done
+	}
+	g.do("last")
+	g.do("file")
+	// the acknowledged replacement ends exactly where the embedded frames begin
+	if g.do(fmt.Sprintf("app n %d:%s", g.next, hx(r.Bytes(k-8)))) == "ok" {
+		g.next++
+	}
+	g.do("file")
+	if g.do("recover "+g.infoArgs()) == "ok" {
+		g.do("last")
+		for idx := g.base; idx <= g.next+1; idx++ {
+			g.do(fmt.Sprintf("get %d", idx))
+		}
+	}
+done:
+	cs := &Case{ID: id, Props: []string{"C01", "C02", "C03", "C09", "C10", "C11", "C15"}, SpecProps: []string{"C09"}, Ops: g.ops, Impl: g.out, Exec: execSegment, Monitor: segMonitor}
+	cs.Tags = []string{"frame-injection"}
+	cs.NonTrivial = true
+	cs.Shape = fmt.Sprintf("frame-injection/%d/%d", k, len(inner))
+	return cs
+}
+
 func suiteSegment(seed uint64, tier string) *Report {
 	rep := newReport("segment", seed, tier)
 	rep.Rule = "generated workloads on one segment file through the real segment.Filer over simfs: appends of varied batch shapes/sizes until sealing, force-seal, I/O faults with partial writes, crash chains (in-flight append torn by an 8-byte-chunk mask, recovery, appends over the stale bytes with aligned shapes, tear again), damaged files (bit flips, splices, truncations, length edits, zero/garbage runs), sealed-reader and dump reads; every output and the file's length+CRC compared with Model.Segment. Non-trivial = hits sealing, a tear, a fault, damage or an error outcome; distinct by the set of such features, segment size and length class."
@@ -865,6 +990,13 @@ func suiteSegment(seed uint64, tier string) *Report {
 	var cases []*Case
 	for i := 0; i < n; i++ {
 		cases = append(cases, genSegCase(r.Fork(), fmt.Sprintf("seg-%d-%d", seed, i), tier))
+	}
+	ninj := 6
+	if tier == "thorough" {
+		ninj = 60
+	}
+	for i := 0; i < ninj; i++ {
+		cases = append(cases, genFrameInjectionCase(r.Fork(), fmt.Sprintf("seg-inject-%d-%d", seed, i)))
 	}
 	RunCases("segment", cases, rep)
 	return rep
